@@ -714,6 +714,22 @@ func (env *Env) evalCall(n ECall) Val {
 		return term(a, gt)
 	case "callresult0", "callresult1", "callresult2":
 		limitf("callresultN is an identifier, not a function")
+	case "implements":
+		// implements(x, pkg.Iface): the dynamic type of x implements the interface (same predicate as a type assertion)
+		v := env.eval(n.Args[0])
+		t := e.P.resolveType(typeArgText(n.Args[1]), env.pkg, env.fnForTypes())
+		pred := "impl_" + shortTypeName(t)
+		e.S.DeclareFun(pred, []string{"Int"}, "Bool")
+		return term(fmt.Sprintf("(and (not (= %s (mk_iface 0 0))) (%s (ityp %s)))", v.T, pred, v.T), tBool)
+	case "cast":
+		// cast(x, T): x viewed at another interface type, or the concrete pointer/value it boxes
+		v := env.eval(n.Args[0])
+		t := e.P.resolveType(typeArgText(n.Args[1]), env.pkg, env.fnForTypes())
+		if _, ok := t.Underlying().(*types.Interface); ok {
+			return term(v.T, t)
+		}
+		e.dispatchAxioms(v.Typ, t)
+		return term(e.unboxIface(v.T, t), t)
 	case "strCount":
 		// number of non-overlapping occurrences of a one-character separator
 		s0, sub := env.eval(n.Args[0]), env.eval(n.Args[1])
@@ -767,7 +783,7 @@ func (env *Env) evalCall(n ECall) Val {
 	case "dyntype":
 		// dyntype(x, T): dynamic type of interface x is T
 		v := env.eval(n.Args[0])
-		t := e.P.resolveType(n.Args[1].String(), env.pkg, env.fnForTypes())
+		t := e.P.resolveType(typeArgText(n.Args[1]), env.pkg, env.fnForTypes())
 		return term(fmt.Sprintf("(= (ityp %s) %d)", v.T, e.S.TypeID(t)), tBool)
 	case "fresh":
 		v := env.eval(n.Args[0])
